@@ -11,7 +11,7 @@ from .expr import ExprMixin
 from .calls import CallMixin
 from .stmt import StmtMixin
 
-UNIVERSES = {"Node": T.INT, "Id": T.INT, "Int": T.INT, "Tuple": T.TUP, "Layer": T.LAYER, "Field": T.FIELD,
+UNIVERSES = {"NodeSet": T.Set(T.INT), "Node": T.INT, "Id": T.INT, "Int": T.INT, "Tuple": T.TUP, "Layer": T.LAYER, "Field": T.FIELD,
              "Real": T.REAL, "MetaD": T.META}
 
 
